@@ -55,12 +55,7 @@ struct Plan<T: El> {
 }
 
 fn run_plan<T: FEl>(tr: &mut Trace, rng: &mut Rng, p: &Plan<T>, dense: usize, extrap: bool) {
-    // a quarter of the builds use non-standard memory layouts of data and axis
-    let (store, dlay, xlay) = match rng.below(8) {
-        0 => (Store::View, *rng.pick(&[Lay::Rev, Lay::Perm, Lay::Strided, Lay::F]), *rng.pick(&[Lay::C, Lay::Rev, Lay::Strided])),
-        1 => (Store::Owned, *rng.pick(&[Lay::F, Lay::Perm]), Lay::C),
-        _ => (Store::Owned, Lay::C, Lay::C),
-    };
+    let (store, dlay, xlay) = gen::next_layout();
     let dr = real(&p.data, dlay);
     let xr = real1(&p.x, xlay);
     let dynamic = rng.below(8) == 0;
@@ -200,13 +195,9 @@ fn periodic_one<T: FEl>(tr: &mut Trace, rng: &mut Rng, n: usize, trailing: &[usi
     let mut data = gen::data::<T>(rng, &shape, "uniform");
     let first = data.index_axis(ndarray::Axis(0), 0).to_owned();
     data.index_axis_mut(ndarray::Axis(0), n - 1).assign(&first);
-    let (store, dlay) = match rng.below(4) {
-        0 => (Store::View, *rng.pick(&[Lay::Rev, Lay::Strided, Lay::F])),
-        1 => (Store::Owned, Lay::F),
-        _ => (Store::Owned, Lay::C),
-    };
+    let (store, dlay, xlay) = gen::next_layout();
     let dr = real(&data, dlay);
-    let xr = real1(&x, Lay::C);
+    let xr = real1(&x, xlay);
     let cfg = Cfg1 { x: Some(&xr), data: &dr, dtag: dtag_for(shape.len(), false), store };
     let lo = x[0].as_f64();
     let hi = x[n - 1].as_f64();
@@ -320,8 +311,14 @@ fn poly_one<T: FEl>(tr: &mut Trace, rng: &mut Rng, n: usize, lanes: usize, i: us
         let cs: Vec<String> = (0..4).map(|d| T::of_f64(p.coef(d) / unit.powi(d as i32)).pay()).collect();
         polys.push(jarr_s(&cs));
     }
-    let data = ArrayD::from_shape_vec(IxDyn(&[n, lanes]), vals).unwrap();
-    let rows = ArrayD::from_shape_vec(IxDyn(&[1, lanes]), rows).unwrap();
+    // an even number of lanes is laid out on two trailing axes every other time (lane number = row-major position)
+    let trailing: Vec<usize> = if lanes % 2 == 0 && i % 2 == 1 { vec![2, lanes / 2] } else { vec![lanes] };
+    let mut dshape = vec![n];
+    dshape.extend_from_slice(&trailing);
+    let mut bshape = vec![1usize];
+    bshape.extend_from_slice(&trailing);
+    let data = ArrayD::from_shape_vec(IxDyn(&dshape), vals).unwrap();
+    let rows = ArrayD::from_shape_vec(IxDyn(&bshape), rows).unwrap();
     let plan = Plan { x, data, bc: Bc::Individual(rows), poly: Some(jarr_raw(&polys)) };
     run_plan(tr, rng, &plan, 4, true);
 }
@@ -338,7 +335,7 @@ pub fn poly(tr: &mut Trace, rng: &mut Rng, thorough: bool) {
             2 => 5,
             _ => 6 + rng.below(if thorough { 20 } else { 6 }),
         };
-        let lanes = 1 + rng.below(3);
+        let lanes = [1, 2, 3, 4, 6][rng.below(5)];
         if i % 3 == 2 {
             poly_one::<f32>(tr, rng, n.min(8), lanes, i);
         } else {
